@@ -1318,6 +1318,33 @@ func runC20(ctx *Ctx) error {
 				J{"targets": row.Targets, "via_flag": row.Flag, "via_old_file": row.Old, "documented": want})
 		}
 	}
+	for _, r := range c20DetectRows(env) {
+		ctx.Res.Count("detect-row")
+		// the documented rule: -old-config-style demands a file readable as old style; otherwise the file decides when it
+		// reads as one style only, a file readable as neither is refused, one readable as both is old exactly when a
+		// deprecated flag is given
+		oldOk, newOk := r.File == 1 || r.File == 3, r.File == 2 || r.File == 3
+		want := "none"
+		switch {
+		case r.Forced:
+			if oldOk {
+				want = "some .old"
+			}
+		case oldOk && !newOk:
+			want = "some .old"
+		case newOk && !oldOk:
+			want = "some .new"
+		case oldOk && newOk:
+			want = "some .new"
+			if r.Deprecated {
+				want = "some .old"
+			}
+		}
+		if r.Observed != want {
+			ctx.Res.Violate(fmt.Sprintf("style-detection:forced=%v:file=%d:deprecated-flag=%v", r.Forced, r.File, r.Deprecated),
+				fmt.Sprintf("-old-config-style=%v, configuration file kind %d (1 old only, 2 new only, 3 both, 4 neither), deprecated flag present=%v: the tool settles on %s, documented %s", r.Forced, r.File, r.Deprecated, r.Observed, want), J{"row": r})
+		}
+	}
 	krs, err := c20Keys(env)
 	if err != nil {
 		return err
